@@ -566,14 +566,6 @@ func runC07(r *core.Run) {
 	r.Sample(c07Case{Seed: jobs[len(jobs)-1].seed.Name, Cut: jobs[len(jobs)-1].cuts[len(jobs[len(jobs)-1].cuts)/2], Terminal: "error", Schedule: "1", Loader: "jpegmeta", ReadBuf: 32768})
 }
 
-func sortInts(a []int) {
-	for i := 1; i < len(a); i++ {
-		for j := i; j > 0 && a[j] < a[j-1]; j-- {
-			a[j], a[j-1] = a[j-1], a[j]
-		}
-	}
-}
-
 // structuralBoundaries scans a real file for chunk / segment starts.
 func structuralBoundaries(format string, b []byte) []int {
 	var out []int
